@@ -101,3 +101,9 @@ claim("C05",
   "Sequences of all 45 custom message types with adversarial field values (extreme / zero / negative integers, odd merkles and JSON, hostile price feeds and coins), huge plans, real-merkle files with declared sizes up to MaxInt64, real proofs; block boundaries always run through reward heights, with jumps to file expiries and far-future heights in fork mode. Any panic escaping block processing is a violation (panics inside a transaction are failed transactions). Two chain-halting defects found (FileSize 0 -> division by zero; several huge files -> int64 wrap -> negative coin) are fixed in /repo (44118141, a1d381ca) and replayed on every run.",
   "Falsification only. Balances <= 1e15 ujkl; module parameters fixed at defaults except windows and collateral price (parameter changes are governance, not user transactions); no wasm contracts are executed.",
   "DESIGN.md section 4 C05")
+
+claim("C11",
+  "property-based tests (rapid): reflection-driven enumeration of all registered custom message types (programs x inputs) for the signer binding; differential signing (creator vs. foreign key) through the real ante handler in ABCI mode; stateful foreign-replay histories with an ownership-partitioned state snapshot oracle",
+  "(a) all 45 registered request types, every field filled by reflection (distinct valid addresses in every string field, or generic values): GetSigners == [Creator], routable, TxConfig round trip preserved. (b) fresh app per case, real ante handler: a tx naming creator A but signed only by B is rejected before execution with no sequence bump or state change; signed by A it passes the ante handler whenever it is statelessly valid. (c) histories in which every account sends every message type with fields drawn from the owners' resources: after each message the provider record, collateral, feeds, inbox (except notifications the signer just sent), block list, primary-name pointer and set of stored files of every non-signer are unchanged; wasmbinding.PerformPostFile refuses a creator other than the contract.",
+  "contract execution is not exercised (no wasm binaries offline); (b) covers the message types for which the generic generator produces a statelessly valid instance (count reported in the evidence notes).",
+  "DESIGN.md section 4 C11")
